@@ -17,7 +17,7 @@ if [ "$STAGE" != 2 ]; then
 : > "$LOG"
 cd "$WT" || exit 2
 # make sure the change is applied exactly as in patch.diff
-git checkout -q -- wtransport/src wtransport-proto/src 2>/dev/null
+git checkout -q -- . 2>/dev/null
 git apply seed/patch.diff || { echo "patch does not apply in worktree" | tee -a "$LOG"; exit 2; }
 echo "== (a) repository suite with the change" | tee -a "$LOG"
 # (the pinned suite = unit tests + doc tests; the seed's own demonstration file is not part of it)
